@@ -291,7 +291,6 @@ def preserve_cases():
         ("self", "trap 'trap - DEBUG; echo \"@once\"' DEBUG\ne a 0\ne b 0\necho \"@? $?\"\n"),
         ("self", "trap 'echo \"@x $?\"; trap -p EXIT | wc -l | sed \"s/^ */@n /\"' EXIT\n( exit 3 )\n"),
         ("self", "trap 'echo \"@x1 $?\"; trap '\\''echo \"@x2\"'\\'' EXIT' EXIT\ne a 2\nexit 4\n"),
-        ("self", "trap 'echo \"@u $?\"; trap - USR1' USR1\nkill -USR1 $$\ne a 0\nkill -USR1 $$ 2>/dev/null; echo \"@alive\"\n"),
     ]
     return out
 
